@@ -3,6 +3,7 @@ package props
 import (
 	"encoding/json"
 	"fmt"
+	"math"
 	"strings"
 
 	"github.com/cybergarage/go-redis/redis"
@@ -144,6 +145,11 @@ func c05Run(c *fw.Ctx) {
 			}
 		})
 	}
+	// composites that delegate to one primitive: the primitive must be called with the
+	// client's key/field and, for ZREVRANGEBYSCORE, with the client's bounds and
+	// exclusive markers on the right side (the remaining arguments are the
+	// implementation's business and are not compared)
+	c05Delegations(c)
 	// AUTH dispatch to the auth handler
 	for v := 0; v < 3; v++ {
 		for _, a := range [][]string{{"AUTH", "pw"}, {"AUTH", "user", "pw"}, {"AUTH", "\r\n"}, {"AUTH", "u\x00", "p q"}} {
@@ -208,10 +214,122 @@ func c05Run(c *fw.Ctx) {
 	}
 }
 
+type c05Deleg struct {
+	Args   []string
+	Method string
+	Want   map[int]any // argument index of the handler call -> expected value
+	Opt    map[string]bool
+}
+
+func c05DelegCheck(d c05Deleg) (clause, detail string) {
+	r := runDouble(seq.Script{Input: grammar.Encode(d.Args)}, func(s *redis.Server, dd *srv.Double) { catalogueDouble(dd) })
+	if cl, dt := crashClause(r.Out); cl != "" {
+		return cl, dt
+	}
+	if len(r.Double.Calls) == 0 {
+		return "delegation-no-call", "no handler call for " + argsString(d.Args)
+	}
+	c := r.Double.Calls[0]
+	if c.Method != d.Method {
+		return "delegation-method", fmt.Sprintf("%s called %s first, expected %s", argsString(d.Args), c.Method, d.Method)
+	}
+	for i, w := range d.Want {
+		if i >= len(c.Args) || fmt.Sprintf("%#v", c.Args[i]) != fmt.Sprintf("%#v", w) {
+			return "delegation-argument", fmt.Sprintf("%s called %s, argument %d should be %#v", argsString(d.Args), c.String(), i, w)
+		}
+	}
+	if d.Opt != nil {
+		opt, ok := c.Args[len(c.Args)-1].(redis.ZRangeOption)
+		if !ok {
+			return "delegation-argument", "last argument is not a ZRangeOption: " + c.String()
+		}
+		got := map[string]bool{"MINEXCLUSIVE": opt.MINEXCLUSIVE, "MAXEXCLUSIVE": opt.MAXEXCLUSIVE, "WITHSCORES": opt.WITHSCORES}
+		for k, v := range d.Opt {
+			if got[k] != v {
+				return "delegation-option", fmt.Sprintf("%s called %s: option %s should be %v", argsString(d.Args), c.String(), k, v)
+			}
+		}
+	}
+	return "", ""
+}
+
+func c05Delegations(c *fw.Ctx) {
+	var ds []c05Deleg
+	for _, k := range []string{"k", "", "\r\n"} {
+		for _, cmd := range []string{"STRLEN", "INCR", "DECR"} {
+			ds = append(ds, c05Deleg{Args: []string{cmd, k}, Method: "Get", Want: map[int]any{0: k}})
+		}
+		ds = append(ds, c05Deleg{Args: []string{"APPEND", k, "v"}, Method: "Get", Want: map[int]any{0: k}})
+		ds = append(ds, c05Deleg{Args: []string{"INCRBY", k, "5"}, Method: "Get", Want: map[int]any{0: k}})
+		ds = append(ds, c05Deleg{Args: []string{"GETRANGE", k, "0", "1"}, Method: "Get", Want: map[int]any{0: k}})
+		ds = append(ds, c05Deleg{Args: []string{"SUBSTR", k, "0", "1"}, Method: "Get", Want: map[int]any{0: k}})
+		for _, cmd := range []string{"HKEYS", "HVALS", "HLEN"} {
+			ds = append(ds, c05Deleg{Args: []string{cmd, k}, Method: "HGetAll", Want: map[int]any{0: k}})
+		}
+		for _, cmd := range []string{"HEXISTS", "HSTRLEN"} {
+			ds = append(ds, c05Deleg{Args: []string{cmd, k, "f\x00"}, Method: "HGet", Want: map[int]any{0: k, 1: "f\x00"}})
+		}
+		ds = append(ds, c05Deleg{Args: []string{"SCARD", k}, Method: "SMembers", Want: map[int]any{0: k}})
+		ds = append(ds, c05Deleg{Args: []string{"SISMEMBER", k, "m"}, Method: "SMembers", Want: map[int]any{0: k}})
+		ds = append(ds, c05Deleg{Args: []string{"ZCARD", k}, Method: "ZRange", Want: map[int]any{0: k}})
+		for _, ws := range []bool{false, true} {
+			a := []string{"ZREVRANGE", k, "0", "-1"}
+			if ws {
+				a = append(a, "WITHSCORES")
+			}
+			ds = append(ds, c05Deleg{Args: a, Method: "ZRange", Want: map[int]any{0: k}, Opt: map[string]bool{"WITHSCORES": ws}})
+		}
+		for _, mx := range grammar.BoundPool {
+			for _, mn := range grammar.BoundPool {
+				for _, ws := range []bool{false, true} {
+					a := []string{"ZREVRANGEBYSCORE", k, mx, mn}
+					if ws {
+						a = append(a, "withscores")
+					}
+					maxV, maxEx := c05Bound(mx)
+					minV, minEx := c05Bound(mn)
+					ds = append(ds, c05Deleg{Args: a, Method: "ZRangeByScore", Want: map[int]any{0: k, 1: minV, 2: maxV},
+						Opt: map[string]bool{"MINEXCLUSIVE": minEx, "MAXEXCLUSIVE": maxEx, "WITHSCORES": ws}})
+				}
+			}
+		}
+	}
+	for _, d := range ds {
+		if !c.Mine() {
+			continue
+		}
+		c.Eval()
+		c.Nontrivial()
+		if clause, detail := c05DelegCheck(d); clause != "" {
+			c.Violation("C05|"+d.Args[0]+"|delegation|"+clause, detail, c05Case{Kind: "deleg", Args: d.Args})
+		}
+	}
+}
+
+func c05Bound(s string) (float64, bool) {
+	ex := strings.HasPrefix(s, "(")
+	if ex {
+		s = s[1:]
+	}
+	var f float64
+	switch s {
+	case "+inf":
+		f = math.Inf(1)
+	case "-inf":
+		f = math.Inf(-1)
+	default:
+		fmt.Sscan(s, &f)
+	}
+	return f, ex
+}
+
 func c05Replay(raw json.RawMessage) (string, bool, error) {
 	var cs c05Case
 	if err := json.Unmarshal(raw, &cs); err != nil {
 		return "", false, err
+	}
+	if cs.Kind == "deleg" {
+		return "", false, fmt.Errorf("delegation cases are re-derived by the check itself; run ./check C05 quick")
 	}
 	if cs.Kind == "cmd" || cs.Kind == "auth" {
 		// re-derive the prediction from the grammar (the stored keys are informative only)
@@ -250,7 +368,7 @@ func init() {
 	fw.Register(&fw.Prop{
 		ID:    "C05",
 		Level: "exploration",
-		Rule:  "for every command that maps onto handler operations: all well-formed argument vectors from the independent grammar (positional values over small per-kind pools incl. binary/CRLF strings and boundary integers/floats, list tails of 1..3 elements with duplicates, pair lists with repeated keys, every legal option subset in every order for SET/ZADD/ZRANGE/ZRANGEBYSCORE/EXPIRE/SCAN/LPOP) x 3 letter-case variants x SELECT {0,3}; plus AUTH forms, an application-registered executor and unknown names at edit distance 1. Each case is a distinct request; all are non-trivial (each compares the recorded handler calls with the predicted ones).",
+		Rule:  "for every command that maps onto handler operations: all well-formed argument vectors from the independent grammar (positional values over small per-kind pools incl. binary/CRLF strings and boundary integers/floats, list tails of 1..3 elements with duplicates, pair lists with repeated keys, every legal option subset in every order for SET/ZADD/ZRANGE/ZRANGEBYSCORE/EXPIRE/SCAN/LPOP) x 3 letter-case variants x SELECT {0,3}; plus the primitive call of every delegating composite (key/field passed through; ZREVRANGEBYSCORE bounds and exclusive markers on the right side), AUTH forms, an application-registered executor and unknown names at edit distance 1. Each case is a distinct request; all are non-trivial (each compares the recorded handler calls with the predicted ones).",
 		Assumptions: []string{
 			"the grammar in /verif/grammar (written from the Redis reference and the handler interface) is the reference for the expected call",
 			"SCAN patterns are compared behaviourally on 14 probe keys; ZRANGE BYSCORE REV, SCAN TYPE, BYLEX are not generated (the interface cannot express them unambiguously)",
